@@ -236,10 +236,26 @@ func contextAt(k *kase, hole int) (ctx, url int) {
 	return v.ctx[0], v.url[0]
 }
 
-// ctxEnd: the hole at the end of the document only (mode ctx; one document per node of the prefix tree)
+// ctxEnd: the hole at the end of the document only (mode ctx; one document per node of the prefix tree).
+// A template that ends inside a URL attribute value does not build ("unexpected EOF"): the context of
+// a hole depends only on the text before it, so the build is retried with a closing `"`, `'` or space
+// after the hole, and the closer that was needed is logged.
 func ctxEnd(k *kase) []any {
-	c, u := contextAt(k, len(k.Frags))
-	return []any{map[string]any{"id": k.ID, "ctx": c, "url": u}}
+	n := len(k.Frags)
+	for _, closer := range []string{"", `"`, `'`, " "} {
+		kk := *k
+		if closer != "" {
+			kk.Frags = append(append([][]int{}, k.Frags...), drv.IntsS(closer))
+		}
+		c, u := contextAt(&kk, n)
+		if c != -1 || closer == " " {
+			if c == -1 {
+				closer = ""
+			}
+			return []any{map[string]any{"id": k.ID, "ctx": c, "url": u, "closer": drv.IntsS(closer)}}
+		}
+	}
+	return nil
 }
 
 func ctxObs(k *kase) []any {
